@@ -84,6 +84,9 @@ func c19(args []string) error {
 						in["items"] = list
 					}
 					inner, _ := json.Marshal(in)
+					if r.Intn(2) == 0 { // the serialisers that escape the solidus (PHP's default): "https:\/\/host\/path"
+						return strings.ReplaceAll(string(inner), "/", `\/`)
+					}
 					return string(inner)
 				default:
 					return map[string]any{"a": build(depth + 1), "title": "not a url", "b": build(depth + 1), "n": nil, "ok": true}
